@@ -706,6 +706,8 @@ class Preprocessor(object):
                     self.features.add("gnu-comma-paste")
                     if len(ops) >= 3 and ops[-3][0] == "paste":
                         raise Undefined("gnu-comma-is-itself-a-##-operand")
+                    if next_is_paste:
+                        raise Undefined("gnu-comma-followed-by-##")
                     ops.pop()          # drop the paste
                     if a is None:      # omitted entirely (GNU cpp: a present-but-empty argument keeps the
                                        # comma, which is also what 6.10.3.3 says for `, ## placemarker`)
